@@ -64,6 +64,43 @@ Theorem C01_blob_flow : k_encrypt_blob_flow = true.
 Proof. exact blob_flow. Qed.
 Print Assumptions C01_blob_flow.
 
+(* ---- public-key modes: ep is the public-key envelope a domain controller delivered for (l0, l1, l2); it is handed to
+   _encrypt_blob (encrypt_blob); the blob is decrypted offline with any cache satisfying cache_ok. dh_env_ok / ecdh_env_ok
+   (Proofs/C01.v) say that ep is what MS-GKDI prescribes for this root key: flag bit 0 set, same KDF parameters and secret
+   agreement algorithm as the root key, and the public key g^y mod p (resp. y*G) of the group private key y derived from the
+   chain seed key of the position. From C03_agree_dh / C03_agree_ecdh. r3 is the ephemeral private key drawn by new_kek. *)
+Theorem C01_roundtrip_pubkey : forall (c : Crypto) (h : hash) (rk : root_key) (rkid : bytes) (s : sid) (sid : pystr) (l0 l1 l2 : Z),
+  rk_hash rk = Ok h -> rk_kdf_alg rk = STR_KDF_ALG -> len rkid = 16 -> sid_parse sid = Ok s -> sid_okb sid = true ->
+  0 <= l0 <= 2147483647 -> 0 <= l1 <= 31 -> 0 <= l2 <= 31 -> CryptoLaws c ->
+  forall (ep : envelope) (seed : bytes) (kl p g : Z) (r1 r2 r3 data blob : bytes),
+  derived_seed c h rk rkid (target_sd s) l0 l1 l2 = Ok seed -> dh_env_ok c h rk rkid l0 l1 l2 ep seed kl p g ->
+  wfb r3 = true -> 8 + 3 * kl < U32 -> len r2 = 12 ->
+  (forall kek kid w, new_kek_rnd c ep r3 = Ok (kek, kid) -> kw_wrap c kek r1 = Ok w -> len w < U32) ->
+  (forall ct, gcm_enc c r1 r2 data = Ok ct -> len ct < U32) ->
+  encrypt_blob c r1 r2 r3 data ep sid = Ok blob ->
+  (exists blob2, (let* b := blob_unpack blob in blob_pack b false) = Ok blob2) /\
+  forall X, cache_ok c h rk rkid (target_sd s) l0 X ->
+    fst (unprotect_offline c X blob) = Ok data /\
+    forall blob2, (let* b := blob_unpack blob in blob_pack b false) = Ok blob2 -> fst (unprotect_offline c X blob2) = Ok data.
+Proof. exact roundtrip_pubkey_dh. Qed.
+Print Assumptions C01_roundtrip_pubkey.
+
+Theorem C01_roundtrip_pubkey_ecdh : forall (c : Crypto) (h : hash) (rk : root_key) (rkid : bytes) (s : sid) (sid : pystr) (l0 l1 l2 : Z),
+  rk_hash rk = Ok h -> rk_kdf_alg rk = STR_KDF_ALG -> len rkid = 16 -> sid_parse sid = Ok s -> sid_okb sid = true ->
+  0 <= l0 <= 2147483647 -> 0 <= l1 <= 31 -> 0 <= l2 <= 31 -> CryptoLaws c ->
+  forall (ep : envelope) (seed : bytes) (alg : pystr) (algz : bytes) (cv : curve) (kl Ax Ay : Z) (r1 r2 r3 data blob : bytes),
+  derived_seed c h rk rkid (target_sd s) l0 l1 l2 = Ok seed -> ecdh_env_ok c h rk rkid l0 l1 l2 ep seed alg algz cv kl Ax Ay -> len r2 = 12 ->
+  (forall kek kid, new_kek_rnd c ep r3 = Ok (kek, kid) -> len (kid_key_info kid) < U32) ->
+  (forall kek kid w, new_kek_rnd c ep r3 = Ok (kek, kid) -> kw_wrap c kek r1 = Ok w -> len w < U32) ->
+  (forall ct, gcm_enc c r1 r2 data = Ok ct -> len ct < U32) ->
+  encrypt_blob c r1 r2 r3 data ep sid = Ok blob ->
+  (exists blob2, (let* b := blob_unpack blob in blob_pack b false) = Ok blob2) /\
+  forall X, cache_ok c h rk rkid (target_sd s) l0 X ->
+    fst (unprotect_offline c X blob) = Ok data /\
+    forall blob2, (let* b := blob_unpack blob in blob_pack b false) = Ok blob2 -> fst (unprotect_offline c X blob2) = Ok data.
+Proof. exact roundtrip_pubkey_ecdh. Qed.
+Print Assumptions C01_roundtrip_pubkey_ecdh.
+
 (* a cache with the root key loaded and no entry for the triple *)
 Theorem C01_cache_ok_fresh : forall c h rk rkid sd l0 cache, cc_find_root (cc_roots cache) rkid = Some rk ->
   cc_find_seed (cc_seeds cache) (rkid, sd, l0) = None -> cache_ok c h rk rkid sd l0 cache.
@@ -102,3 +139,17 @@ Example C01_nonconforming_cache_entry :
   | _ => False
   end.
 Proof. exact nonconforming_cache_entry. Qed.
+
+(* public-key modes: DH group p = 65521, g = 17 with 2-byte fields; ECDH_P256 key structure over the toy curve of Model/Sym.v.
+   All hypotheses of C01_roundtrip_pubkey / _ecdh hold of these values (ex_dh_env_ok, ex_ecdh_env_ok), encrypt succeeds, and the
+   blob and its re-layout decrypt offline *)
+Example C01_example_pubkey_dh : exists blob,
+  encrypt_blob symg ex_r1 ex_r2 ex_r3 [1; 2; 3] ex_ep_dh ex_sid = Ok blob /\
+  fst (unprotect_offline symg ex_cache blob) = Ok [1; 2; 3] /\
+  exists blob2, (let* b := blob_unpack blob in blob_pack b false) = Ok blob2 /\ fst (unprotect_offline symg ex_cache blob2) = Ok [1; 2; 3].
+Proof. exact example_pubkey_dh. Qed.
+Example C01_example_pubkey_ecdh : exists blob,
+  encrypt_blob symg ex_r1 ex_r2 ex_r3 [1; 2; 3] ex_ep_ecdh ex_sid = Ok blob /\
+  fst (unprotect_offline symg ex_cacheE blob) = Ok [1; 2; 3] /\
+  exists blob2, (let* b := blob_unpack blob in blob_pack b false) = Ok blob2 /\ fst (unprotect_offline symg ex_cacheE blob2) = Ok [1; 2; 3].
+Proof. exact example_pubkey_ecdh. Qed.
